@@ -220,9 +220,23 @@ class Driver:
         self.calls = 0
         self.lines = 0
 
-    def ask(self, lines: list[str], timeout=3600) -> list[str]:
+    def ask(self, lines: list[str], timeout=3600, soft_timeout: float | None = None) -> list[str]:
+        """soft_timeout: the ops come from the code under test (e.g. a token list produced by the real parser) and
+        one of them may make the model compute something astronomically large; instead of hanging, the batch is
+        split until the offending op is isolated and answered `driver-timeout`"""
         if not lines:
             return []
+        if soft_timeout is not None:
+            try:
+                return self.ask(lines, timeout=soft_timeout)
+            except subprocess.TimeoutExpired:
+                if len(lines) == 1:
+                    return ["driver-timeout"]
+                k = max(1, len(lines) // 8)
+                out = []
+                for i in range(0, len(lines), k):
+                    out += self.ask(lines[i:i + k], soft_timeout=max(3.0, soft_timeout / 3))
+                return out
         for l in lines:
             if "\n" in l:
                 raise ValueError("newline in driver op")
